@@ -92,6 +92,12 @@ func mutateHostile(rt *rapid.T, r *Rendered, le bool, hint int) ([]byte, string,
 			pvMax = 8
 		}
 		switch rapid.IntRange(0, pvMax).Draw(rt, "pv") {
+		case 4: // a number that occurs as a constant in the source of the tree under test, and its neighbours
+			if n, ok := dictNumber(rt, "pdict"); ok && rapid.Bool().Draw(rt, "usepdict") {
+				nv = (n + uint64(rapid.SampledFrom([]int{0, 1, -1, 2}).Draw(rt, "pdn"))) & sp.Max
+			} else {
+				nv = rapid.Uint64().Draw(rt, "rnd") & sp.Max
+			}
 		case 7, 8: // not larger than what an earlier call in this process legitimately carried
 			nv = uint64(rapid.IntRange(1, hint).Draw(rt, "le-hint")) & sp.Max
 		case 5: // a power of two (products with an element width wrap in narrow arithmetic), +-1
@@ -108,7 +114,7 @@ func mutateHostile(rt *rapid.T, r *Rendered, le bool, hint int) ([]byte, string,
 		case 3:
 			nv = rapid.SampledFrom(hostileConsts).Draw(rt, "const") & sp.Max
 		default:
-			nv = rapid.Uint64().Draw(rt, "rnd") & sp.Max
+			nv = rapid.Uint64().Draw(rt, "rnd2") & sp.Max
 		}
 		copy(w[sp.Off:], putUint(nil, nv, sp.Len, le))
 		if nv > cur {
@@ -154,6 +160,9 @@ func mutateHostile(rt *rapid.T, r *Rendered, le bool, hint int) ([]byte, string,
 			nb[rapid.IntRange(0, sp.Len-1).Draw(rt, "kpos")] = rapid.SampledFrom([]byte{' ', 0, byte(sp.Max), 0xff}).Draw(rt, "kb")
 		default:
 			nb = rapid.SliceOfN(rapid.Byte(), sp.Len, sp.Len).Draw(rt, "kraw")
+			if wd, ok := dictWord(rt, "kdict"); ok && rapid.Bool().Draw(rt, "usekdict") {
+				nb = refFixedWrite(wd, sp.Len, byte(sp.Max), false)
+			}
 		}
 		copy(w[sp.Off:], nb)
 	}
